@@ -1065,6 +1065,11 @@ def capture(numel, kind):
         act = np.arange(lo, numel)
         tx = np.repeat(act, len(act))
         rx = np.tile(act, len(act))
+    if kind == "few-transmitters":
+        # only elements 1 and 2 fire, every element receives (receiver indices exceed the largest transmitter index)
+        nt_ = min(2, numel)
+        tx = np.repeat(np.arange(nt_), numel)
+        rx = np.tile(np.arange(numel), nt_)
     if kind == "shuffled-fmc":
         tx = np.repeat(np.arange(numel), numel)
         rx = np.tile(np.arange(numel), numel)
@@ -1200,7 +1205,7 @@ def check_brain(numel, kind, S, reader, layout="SN", idx_dtype=np.float64, timem
         nontrivial.add(("brain", reader, kind, N, S, np.dtype(idx_dtype).name))
 
 
-KINDS = ["fmc", "fmc-rx-major", "hmc", "hmc-lower", "random", "shuffled-fmc", "sub-aperture-fmc"]
+KINDS = ["fmc", "fmc-rx-major", "hmc", "hmc-lower", "random", "shuffled-fmc", "sub-aperture-fmc", "few-transmitters"]
 DTYPES = [np.float64, np.uint8, np.uint16, np.int32, np.float32]
 for reader in ("scipy", "hdf5"):
     for kind in KINDS:
